@@ -17,7 +17,7 @@ def lifecycle(rng, fail_at=None, fail_op=None, kind=None):
     """one lifecycle script; if fail_op is given, 'failnth fail_at' is placed before that op index"""
     ssrc = rng.randrange(2, 1 << 32)
     kind = kind if kind is not None else rng.randrange(6)
-    mki = rng.random() < 0.4
+    mki = rng.random() < 0.4 and kind != 0        # (kind 0 also carries the legacy-key-with-count policy, which needs MKIs off)
     def pol(t, s, valid=True, xtn=False):
         p = default_policy(rng, s, ssrc_type=t, window=rng.choice([64, 128, 1024]))
         if mki:
